@@ -344,6 +344,10 @@ pub struct DeckCase {
     /// 2 execute_poke, 3 set_fast_load on and off, 4 set_sound off and on, 5 set_ay_enabled, 6 none
     pub host_call: u8,
     pub sp: u16,
+    /// the emulator is created with fast loading enabled (the deck is a deck all the same: PLAY
+    /// starts it, STOP freezes it)
+    #[serde(default)]
+    pub fastload: bool,
 }
 
 /// "The EAR level is frozen and no tape is consumed while stopped": a stopped (or never started)
@@ -353,7 +357,9 @@ pub fn check_deck(c: &DeckCase, rec: &mut Rec) -> Result<(), String> {
     use crate::mach::{self, MemModel, RegFile};
     use rustzx_core::host::{Screen, SnapshotRecorder, Tape};
     let machine = c.machine;
-    let mut e = mk_emu(&EmuOpts::new(machine));
+    let mut o = EmuOpts::new(machine);
+    o.fastload = c.fastload;
+    let mut e = mk_emu(&o);
     let mut mm = MemModel::new(machine, mach::rom_images(machine));
     let image = tap::write(&[tap::block(0xFF, &[1, 2, 3, 4, 5, 6, 7, 8], true)]);
     e.load_tape(Tape::Tap(DynAsset::new(MemAsset::new(image)))).map_err(|x| format!("load_tape: {:?}", x))?;
@@ -450,7 +456,7 @@ pub fn check_deck(c: &DeckCase, rec: &mut Rec) -> Result<(), String> {
 
 pub fn deck_strategy() -> impl Strategy<Value = DeckCase> {
     (prop_oneof![Just(crate::host::Machine::K48), Just(crate::host::Machine::K128)], 0u8..3, any::<u8>(), 0u8..7, any::<u16>())
-        .prop_map(|(machine, deck, play_loops, host_call, sp)| DeckCase { machine, deck, play_loops, host_call, sp })
+        .prop_map(|(machine, deck, play_loops, host_call, sp)| DeckCase { machine, deck, play_loops, host_call, sp, fastload: sp % 2 == 1 })
 }
 
 pub fn run(run: &mut Run) {
